@@ -9,6 +9,8 @@ import json, sys
 
 pid, wt = sys.argv[1], sys.argv[2]
 n = int(sys.argv[3]) if len(sys.argv) > 3 else 2
+out = sys.argv[4] if len(sys.argv) > 4 else '/tmp/seed-out'
+avoid = sys.argv[5] if len(sys.argv) > 5 else ''
 prop = None
 for line in open('/verif/properties.jsonl'):
     p = json.loads(line)
@@ -18,7 +20,7 @@ assert prop, pid
 
 print(f"""You are helping to evaluate a verification framework by planting realistic bugs ("seeded changes") in a Rust project.
 
-Project: mitsuhiko/minijinja (a Jinja2-compatible template engine in Rust). You have your own scratch git worktree of it at {wt} . Work ONLY inside {wt} and inside the output directory /tmp/seed-out/{pid}/ . Never touch /repo or /verif (do not even read /verif). The sandbox has no network: always run cargo with `--offline` and set `CARGO_TARGET_DIR={wt}/target`.
+Project: mitsuhiko/minijinja (a Jinja2-compatible template engine in Rust). You have your own scratch git worktree of it at {wt} . Work ONLY inside {wt} and inside the output directory {out}/{pid}/ . Never touch /repo or /verif (do not even read /verif). The sandbox has no network: always run cargo with `--offline` and set `CARGO_TARGET_DIR={wt}/target`.
 
 The semantic property under study ({pid}: {prop['title']}):
 
@@ -34,11 +36,11 @@ Your task: produce {n} independent, *different* changes to the minijinja source 
   (c) looks like a realistic developer mistake or plausible "optimisation"/"refactoring" (an off-by-one, a dropped case, a wrong boundary, a reordered pair of statements, a missing restore on one path, ...), a few lines, not sabotage,
   (d) needs something SPECIFIC to manifest - an unusual input or boundary value, a particular multi-step sequence of operations, a particular path/interleaving/fault point, or two cooperating sites that each look fine alone - so that ordinary use and the existing tests do not expose it at once.
 
-For each change i (1..{n}) deliver, in /tmp/seed-out/{pid}/<i>/ :
+For each change i (1..{n}) deliver, in {out}/{pid}/<i>/ :
   * patch.diff  - `git diff` of the change against the worktree's HEAD (source change only; it must apply with `git apply` to a clean checkout of HEAD),
   * a demonstration: either demo_test.rs (a self-contained Rust integration test file that can be dropped into {wt}/minijinja/tests/ - or the relevant crate's tests/ - and run with `cargo test --offline --test <name>`, plus the exact cargo features it needs) or a small example program; it must FAIL (or show the wrong behaviour, asserting on it) with the change applied and PASS on the unchanged tree. Check both yourself.
   * notes.md    - which clause of the property it breaks, what exactly is needed to make it manifest, the commands you ran and their results (test-suite pass with the change; demo fail with / pass without).
 
 Procedure per change: make the edit, run the full suite, write and run the demo, save `git diff > patch.diff`, then `git checkout -- .` (and remove your untracked demo file from the worktree after copying it to the output dir) before starting the next change, so each patch is independent and the worktree ends clean. Spread the changes over different functions/mechanisms of the anchored code. Prefer subtle over blatant. If a candidate change makes an existing test fail, discard it and try another.
 
-Finish with a short report: for each change, one paragraph (file/function touched, what breaks, what is needed to trigger it) and confirmation that (a)-(d) were checked.""")
+{('Changes that earlier rounds already produced for this property - do NOT repeat these or close variants of them, pick other functions/mechanisms: ' + avoid + chr(10) + chr(10)) if avoid else ''}Finish with a short report: for each change, one paragraph (file/function touched, what breaks, what is needed to trigger it) and confirmation that (a)-(d) were checked.""")
